@@ -38,7 +38,7 @@ def start_point(rng, md):
 
 
 def generate(rng, tier):
-    n = 5000 if tier == "quick" else 120000
+    n = 12000 if tier == "quick" else 200000
     cases = []
     for i in range(n):
         md = MODES[i % 4]
